@@ -55,6 +55,11 @@ class FileHeaderItem(EFLRItem):
 
         super().__init__(name=identifier, parent=parent)
 
+    def __setattr__(self, key: str, value: Any) -> None:
+        if key == 'header_id' and 'header_id' in self.__dict__:
+            validate_string(value)  # a new ID is subject to the same check as the one given at creation
+        return super().__setattr__(key, value)
+
     @classmethod
     def _check_sequence_number(cls, sequence_number: Any) -> None:
         """Check that the sequence number is a positive integer of at most 10 digits (a bool is not a number here)."""
